@@ -95,29 +95,36 @@ AtMostOne(a) == Len(a.items) <= 1
 Kind1(a) == a.items[1].t
 
 SysTypeName(it) == CASE it.t = "b" -> "Boolean" [] it.t = "i" -> "Integer" [] it.t = "s" -> "String"
-                     [] it.t = "d" -> "Decimal" [] OTHER -> "?"
+                     [] it.t = "di" -> "Decimal" [] OTHER -> "?"
 KnownTypeSpecs == {<<"Integer">>, <<"Boolean">>, <<"String">>, <<"Decimal">>,
                    <<"System", "Integer">>, <<"System", "Boolean">>, <<"System", "String">>, <<"System", "Decimal">>}
 TypeSpecName(ty) == ty[Len(ty)]
 
+(* numbers: Integer items and Decimal items with an integral value, kept    *)
+(* internally as [t |-> "di", i] (the canonical Decimal item is produced    *)
+(* when an observation is compared)                                         *)
+DI(x) == [t |-> "di", i |-> x]
+IsNum(it) == it.t \in {"i", "di"}
 Arith(op, a, b) ==
   IF ~AtMostOne(a) \/ ~AtMostOne(b) THEN NA
   ELSE IF Len(a.items) = 0 \/ Len(b.items) = 0
-       THEN (IF (Len(a.items) = 0 \/ Kind1(a) \in {"i", "s"}) /\ (Len(b.items) = 0 \/ Kind1(b) \in {"i", "s"})
-             THEN (IF op \in {"div", "mod", "/"} /\ Len(b.items) = 1 /\ Kind1(b) = "i" /\ b.items[1].i = 0 THEN DZ ELSE V(<<>>))
+       THEN (IF (Len(a.items) = 0 \/ Kind1(a) \in {"i", "di", "s"}) /\ (Len(b.items) = 0 \/ Kind1(b) \in {"i", "di", "s"})
+             THEN (IF op \in {"div", "mod", "/"} /\ Len(b.items) = 1 /\ IsNum(b.items[1]) /\ b.items[1].i = 0 THEN DZ ELSE V(<<>>))
              ELSE NA)
   ELSE IF Kind1(a) = "s" /\ Kind1(b) = "s" /\ op = "+" THEN V(<<S(a.items[1].cp \o b.items[1].cp)>>)
-  ELSE IF Kind1(a) # "i" \/ Kind1(b) # "i" THEN NA
+  ELSE IF ~IsNum(a.items[1]) \/ ~IsNum(b.items[1]) THEN NA
   ELSE LET x == a.items[1].i
            y == b.items[1].i
+           dec == Kind1(a) = "di" \/ Kind1(b) = "di"
+           R(v) == IF ~Small(v) THEN NA ELSE IF dec THEN V(<<DI(v)>>) ELSE V(<<I(v)>>)
        IN IF ~Small(x) \/ ~Small(y) THEN NA
-          ELSE CASE op = "+" -> V(<<I(x + y)>>)
-                 [] op = "-" -> V(<<I(x - y)>>)
-                 [] op = "*" -> V(<<I(x * y)>>)
+          ELSE CASE op = "+" -> R(x + y)
+                 [] op = "-" -> R(x - y)
+                 [] op = "*" -> R(x * y)
                  [] op = "div" -> IF y = 0 THEN DZ ELSE V(<<I(TruncDiv(x, y))>>)
-                 [] op = "mod" -> IF y = 0 THEN DZ ELSE V(<<I(TruncMod(x, y))>>)
+                 [] op = "mod" -> IF y = 0 THEN DZ ELSE R(TruncMod(x, y))
                  [] op = "/" -> IF y = 0 THEN DZ
-                                ELSE IF TruncMod(x, y) = 0 THEN V(<<DecOfInt(TruncDiv(x, y))>>) ELSE NA
+                                ELSE IF TruncMod(x, y) = 0 THEN V(<<DI(TruncDiv(x, y))>>) ELSE NA
 
 StrOrEmpty(a) == Len(a.items) = 0 \/ (Len(a.items) = 1 /\ Kind1(a) = "s")
 StrOf(a) == IF Len(a.items) = 0 THEN <<>> ELSE a.items[1].cp
@@ -126,14 +133,15 @@ Concat(a, b) == IF StrOrEmpty(a) /\ StrOrEmpty(b) THEN V(<<S(StrOf(a) \o StrOf(b
 Ineq(op, a, b) ==
   IF ~AtMostOne(a) \/ ~AtMostOne(b) THEN NA
   ELSE IF Len(a.items) = 0 \/ Len(b.items) = 0
-       THEN (IF (Len(a.items) = 0 \/ Kind1(a) = "i") /\ (Len(b.items) = 0 \/ Kind1(b) = "i") THEN V(<<>>) ELSE NA)
-  ELSE IF Kind1(a) # "i" \/ Kind1(b) # "i" THEN NA
+       THEN (IF (Len(a.items) = 0 \/ IsNum(a.items[1])) /\ (Len(b.items) = 0 \/ IsNum(b.items[1])) THEN V(<<>>) ELSE NA)
+  ELSE IF ~IsNum(a.items[1]) \/ ~IsNum(b.items[1]) THEN NA
   ELSE LET x == a.items[1].i
            y == b.items[1].i
        IN V(<<B(CASE op = "<" -> x < y [] op = "<=" -> x <= y [] op = ">" -> x > y [] op = ">=" -> x >= y)>>)
 
-Scalar(a) == Len(a.items) = 1 /\ Kind1(a) \in {"b", "i", "s"}
-SameScalar(x, y) == x.t = y.t /\ (CASE x.t = "b" -> x.b = y.b [] x.t = "i" -> x.i = y.i [] x.t = "s" -> x.cp = y.cp)
+Scalar(a) == Len(a.items) = 1 /\ Kind1(a) \in {"b", "i", "di", "s"}
+SameScalar(x, y) == IF IsNum(x) /\ IsNum(y) THEN x.i = y.i
+                    ELSE x.t = y.t /\ (CASE x.t = "b" -> x.b = y.b [] x.t = "s" -> x.cp = y.cp [] OTHER -> FALSE)
 Equal(op, a, b) ==
   IF (Len(a.items) = 0 /\ (Len(b.items) = 0 \/ Scalar(b))) \/ (Len(b.items) = 0 /\ Scalar(a)) THEN V(<<>>)
   ELSE IF ~Scalar(a) \/ ~Scalar(b) THEN NA
@@ -154,6 +162,7 @@ TypeOp(op, a, ty) ==
 Negate(a) ==
   IF Len(a.items) = 0 THEN V(<<>>)
   ELSE IF Single(a) /\ Kind1(a) = "i" /\ Small(a.items[1].i) THEN V(<<I(-(a.items[1].i))>>)
+  ELSE IF Single(a) /\ Kind1(a) = "di" /\ Small(a.items[1].i) THEN V(<<DI(-(a.items[1].i))>>)
   ELSE NA
 
 Root == [root |-> TRUE]
@@ -188,7 +197,8 @@ ApplyFn(name, args, a, this) ==
        [] name = "tail" /\ n = 0   -> VF(IF Len(items) = 0 THEN <<>> ELSE Tail(items), a.fhir)
        [] name = "abs" /\ n = 0 ->
             IF Len(items) = 0 THEN V(<<>>)
-            ELSE IF Single(a) /\ Kind1(a) = "i" /\ Small(items[1].i) THEN V(<<I(Abs(items[1].i))>>) ELSE NA
+            ELSE IF Single(a) /\ ~a.fhir /\ Kind1(a) = "i" /\ Small(items[1].i) THEN V(<<I(Abs(items[1].i))>>)
+            ELSE IF Single(a) /\ Kind1(a) = "di" /\ Small(items[1].i) THEN V(<<DI(Abs(items[1].i))>>) ELSE NA
        [] name = "toString" /\ n = 0 ->
             IF Len(items) = 0 THEN V(<<>>)
             ELSE IF ~Single(a) \/ a.fhir THEN NA
@@ -295,7 +305,7 @@ DividesByZero(t) == ~HasUnsupported(t) /\ Eval(t, Root).k = "dz"
 ItemAgrees(o, e, fhir) ==
   IF o.t = "el"
   THEN fhir /\ (e.t = "opaque" \/ o.v.t # e.t \/ ItemSame(o.v, e))
-  ELSE e.t # "opaque" /\ ItemSame(o, e)
+  ELSE e.t # "opaque" /\ ItemSame(o, IF e.t = "di" THEN DecOfInt(e.i) ELSE e)
 ValueAgrees(out, exp) ==
   /\ out.k = "ok"
   /\ Len(out.items) = Len(exp.items)
